@@ -40,10 +40,12 @@ def dispatch (j : Json) : List (String × Json) :=
     -- the parser's two recursions are bounded (parse/parse.go maxStmtDepth, maxArgPieces = 10000): a block nested deeper,
     -- an argument of more '+' pieces is refused where the bound is passed; the statement parser of the model has no stack
     let n := jnat j "n"
+    let depth := (YV.YT.parseLimits.lookup "maxStmtDepth").getD 0
+    let pieces := (YV.YT.parseLimits.lookup "maxArgPieces").getD 0
     let r := match jstr j "shape" with
-      | "blocks" => if n > 10000 then "deep:refused" else "deep:err"       -- (never closed)
-      | "closed" => if n - 1 > 10000 then "deep:refused" else "deep:ok"    -- (n statements, n - 1 blocks)
-      | "pieces" => if n > 10000 then "deep:refused" else "deep:ok"
+      | "blocks" => if n > depth then "deep:refused" else "deep:err"       -- (never closed)
+      | "closed" => if n - 1 > depth then "deep:refused" else "deep:ok"    -- (n statements, n - 1 blocks)
+      | "pieces" => if n > pieces then "deep:refused" else "deep:ok"
       | _ => "deep:ok"
     [("m", Json.str r), ("s", Json.str r)]
   | "un" =>
